@@ -11,7 +11,7 @@
    before more, exactly as R prescribes (C02_fragment_quantified_selected_match_partial).  Partial:
    variable-length repeats, the optimised search paths, and the resume position of the scan loops outside the abstract
    good_step interface. *)
-From RX Require Import Base.Prelude Model.Engine Model.Matcher Model.Api Proofs.ScanFacts Model.Op Proofs.EngineFacts Proofs.EngineCorollaries Spec.Syntax Spec.Sem Model.Compiler Proofs.LowerFacts Proofs.FragmentSpec Proofs.OrderFacts Proofs.QuantFacts Proofs.QuantLaws Proofs.FixedFacts Proofs.OrderFixed Spec.Parse Model.Compiler Proofs.GroupGrammar Proofs.GroupSpec.
+From RX Require Import Base.Prelude Model.Engine Model.Matcher Model.Api Proofs.ScanFacts Model.Op Proofs.EngineFacts Proofs.EngineCorollaries Spec.Syntax Spec.Sem Model.Compiler Proofs.LowerFacts Proofs.FragmentSpec Proofs.OrderFacts Proofs.QuantFacts Proofs.QuantLaws Proofs.FixedFacts Proofs.OrderFixed Spec.Parse Model.Compiler Proofs.GroupGrammar Proofs.GroupSpec Spec.Syntax Spec.Sem Spec.Parse Model.Compiler Proofs.ScanFacts Proofs.GroupGrammar Proofs.GroupSpec Proofs.GroupScan.
 
 Fixpoint ordered (spans : list (nat * nat)) (from : nat) : Prop :=
   match spans with
@@ -112,9 +112,28 @@ Theorem C02_group_grammar_selected_match :
     end.
 Proof. exact grammar_selected_match. Qed.
 
+(* every span of the scan, not only the first: the list of (start, end) pairs the loop of tokenize /
+   replace_all / analyze goes through is, element by element, the list of the specification's spans
+   (leftmost, non-overlapping, each the selected match from the end of the previous one) *)
+Theorem C02_group_grammar_spans :
+  forall xpath a fls input,
+    ok_a xpath a = true -> existsb (N.eqb 59) fls = false -> (N.of_nat (length input) < umax)%N ->
+    match spec_flags xpath fls with
+    | Valid sf =>
+        s_q sf = false -> s_x sf = false ->
+        exists re r, regex_new true xpath (show_a a) fls = Ok re /\ spec_parse xpath (show_a a) = Valid r
+          /\ (r_nullable re = false ->
+              scan (matches (r_prog re) input) input (length input + 2) 0 st0 = map span_of (spec_spans sf input r)
+              /\ tok_all (matches (r_prog re) input) input (S (S (S (length input)))) {| t_prev := Some 0; t_ms := st0 |}
+                 = Ok (pieces input (map span_of (spec_spans sf input r)) 0))
+    | _ => True
+    end.
+Proof. exact grammar_tokens_are_spec_pieces. Qed.
+
 Print Assumptions C02_spans_ordered_partial.
 Print Assumptions C02_fragment_leftmost_first_partial.
 Print Assumptions C02_fragment_selected_match_partial.
 Print Assumptions C02_fragment_order_partial.
 Print Assumptions C02_fragment_quantified_selected_match_partial.
 Print Assumptions C02_group_grammar_selected_match.
+Print Assumptions C02_group_grammar_spans.
